@@ -162,7 +162,10 @@ func (r *BPlusKVPairReader) Read(buffer []*storage.KVPair) (n int, err error) {
 		}
 		key := i.(KVItem).Key
 
-		if bytes.Compare(key[:1], r.lastKey[:1]) == 0 && bytes.Compare(key, r.lastKey) != 0 {
+		if key[0] != r.prefix {
+			return false // end of this table
+		}
+		if bytes.Compare(key, r.lastKey) != 0 {
 			buffer[n] = &storage.KVPair{key[1:], i.(KVItem).Value}
 			n++
 		}
